@@ -1,7 +1,7 @@
 (* Props/C14.v — the theorems that decide C14 (binary reader: no out-of-bounds, exact decoding).
    Statements only; every proof is `exact <lemma>` and is followed by Print Assumptions. *)
 From AV Require Import Base.Prelude Gen.ReaderPrims Model.Reader Model.ReaderExt Model.ReaderObs
-  Proofs.ReaderProofs Proofs.ReaderObsProofs.
+  Proofs.ReaderProofs Proofs.ReaderObsProofs Model.DepSizeExpr Gen.DepSizes Model.DepSize Proofs.DepSizeProofs.
 Open Scope Z_scope.
 
 (* 1. The primitives extracted from the current source satisfy the shape the proofs rely on:
@@ -281,3 +281,38 @@ Proof. vm_compute. reflexivity. Qed.
 
 Example C14_example_xinv : xinv [18; 52; 86; 120] (xinit [18; 52; 86; 120]).
 Proof. apply xinit_inv; vm_compute; reflexivity. Qed.
+
+(* Strides of the crate's own dependent records (fourth seeding round).  `size(args)` of every
+   `impl ReadFixedSizeDep` (17, regenerated into Gen/DepSizes.v with the type each `+` / `*` is evaluated in)
+   evaluates, with overflow checks and without, for EVERY argument of the argument's type (u16 counts up to
+   65535, value formats 0..255, usize counts as long as the record size itself is a usize), to the encoded size
+   of the record: no intermediate result leaves its type. *)
+Theorem C14_lib_dep_size_exact : forall (m : mode) (r : librec) (a : list Z),
+    lib_args_ok r a = true ->
+    seval m a (lib_size_expr r) = Ok (lib_spec_size r a).
+Proof. exact lib_size_exact. Qed.
+Print Assumptions C14_lib_dep_size_exact.
+
+(* ... hence read_array_dep::<R>(n, args) takes exactly n x encoded-size bytes (or fails with Eof, never
+   panics), and the stride of the array is large enough for read_item's per-item scope. *)
+Theorem C14_lib_dep_array_window : forall (m : mode) (r : librec) (a : list Z) (n avail : Z),
+    lib_args_ok r a = true -> 0 <= n < USIZE -> 0 <= avail < USIZE ->
+    lib_read_array_dep m r a n avail =
+      Ok (lib_spec_size r a,
+          if (n * lib_spec_size r a <=? avail) then Ok (n * lib_spec_size r a) else Err Eof)
+    /\ lib_item_fits r a (lib_spec_size r a) = true.
+Proof. exact lib_read_array_dep_window. Qed.
+Print Assumptions C14_lib_dep_array_window.
+
+(* non-vacuity: the extremes of the argument types are inside the hypothesis *)
+Example C14_example_lib_args :
+  lib_args_ok L_VariationRegion [65535] = true /\ lib_args_ok L_PairValueRecord [255; 255] = true /\
+  lib_args_ok L_Class1Record [65535; 255; 255] = true /\ lib_args_ok L_BaseRecord [65535] = true /\
+  lib_spec_size L_VariationRegion [21846] = 131076 /\ length lib_all = 17%nat /\ lib_blanket_impls = 1.
+Proof. vm_compute. repeat split; reflexivity. Qed.
+
+(* the evaluator does see arithmetic in a narrow type (the shape of seeded change H) *)
+Example C14_example_narrow_mul :
+  seval Debug [21846] (SMul TUsize (SFrom TUsize (SMul TU16 (SArg 0) (SLit 3))) (SLit 2)) = Panic /\
+  seval Release [21846] (SMul TUsize (SFrom TUsize (SMul TU16 (SArg 0) (SLit 3))) (SLit 2)) = Ok 4.
+Proof. exact narrow_mul_overflows. Qed.
